@@ -35,6 +35,11 @@ def programs():
     # literals out of range
     for lit in ["99999999999", "2147483648", "9223372036854775808L", "99999999999999999999999L", "1e40f"]:
         out.append(("literal " + lit, "function main() -> void { echo(%s); }\n" % lit))
+    # float literals beyond the float / double range (the language has no exponent syntax: written out in digits)
+    for digits, frac in ((39, 0), (40, 0), (46, 0), (310, 0), (400, 0), (1, 46), (1, 60), (1, 330), (1, 400)):
+        lit = ("4" + "0" * (digits - 1) + ".0f") if not frac else ("0." + "0" * (frac - 1) + "1f")
+        out.append(("float literal %d digits %d fraction" % (digits, frac), "function main() -> void { float x = %s; echo(x); echo(x * 2.0f); }\n" % lit))
+        out.append(("float literal in expression %d/%d" % (digits, frac), "function main() -> void { echo(1.0f + %s); }\n" % lit))
     out.append(("shots literal", "@shots(99999999999)\nfunction main() -> void { echo(1); }\n"))
     # indices
     arr = "function main() -> void {\n  int[] xs = {1, 2, 3};\n  int k = %s;\n  %s\n}\n"
@@ -60,6 +65,20 @@ def programs():
             src += "class L%d extends L%d { public constructor() -> L%d { super(); } %s }\n" % (d, d - 1, d, ov)
         src += "function main() -> void { L0 o = new L6(); echo(o.f(1)); echo(o.f(2L)); echo(o.f(\"s\")); L3 m = new L5(); echo(m.f(1)); echo(m.f(\"t\")); }\n"
         out.append(("deep hierarchy %s" % (perm,), src))
+    # the same with generic classes (specialisations are built lazily by a separate code path)
+    for perm in itertools.permutations(range(3)):
+        src = "class G0<T> { public T t; public constructor(T x) -> G0<T> { this.t = x; } %s }\n" % " ".join(overloads[i] % "G0" for i in perm)
+        for d in range(1, 4):
+            ov = " ".join((overloads[i] % ("G%d" % d)).replace("virtual", "virtual override") for i in perm if (d + i) % 2 == 0)
+            src += "class G%d<T> extends G%d<T> { public constructor(T x) -> G%d<T> { super(x); } %s }\n" % (d, d - 1, d, ov)
+        src += ("function main() -> void { G0<int> o = new G3<int>(7); echo(o.f(1)); echo(o.f(2L)); echo(o.f(\"s\")); G1<string> m = new G2<string>(\"q\"); "
+                "echo(m.f(1)); echo(m.f(\"t\")); G0<int> p = new G0<int>(1); echo(p.f(1)); echo(p.f(3L)); echo(p.f(\"u\")); echo(o.t); }\n")
+        out.append(("generic hierarchy %s" % (perm,), src))
+        for k in range(3):
+            solo = "class S<T> { public T t; public constructor(T x) -> S<T> { this.t = x; } %s }\n" % " ".join(overloads[i] % "S" for i in perm[:k + 1])
+            calls = "".join("echo(s.f(%s)); " % {0: "1", 1: "2L", 2: "\"z\""}[i] for i in perm[:k + 1])
+            out.append(("generic solo %s/%d" % (perm, k), solo + "function main() -> void { S<int> s = new S<int>(3); %s S<string> u = new S<string>(\"a\"); echo(u.f(%s)); }\n"
+                        % (calls, {0: "1", 1: "2L", 2: "\"z\""}[perm[0]])))
     # runtime errors while objects are alive in 0..3 frames (with and without qubit fields, with destructors)
     for qfield in (False, True):
         for dtor in (False, True):
